@@ -847,9 +847,16 @@ static void one_chain(vh::Trace& tr, const std::vector<Stage>& st, int shape, in
   std::string sj = "[";
   int so = sd;
   for (size_t i = 0; i < st.size(); ++i) { sj += (i ? "," : "") + stage_json(st[i]); so += stage_bits(st[i]); }
+  // the same processors applied one after the other by hand (fresh objects), for "composition = successive application"
+  Array<3, float> seq = to_array<3>(d, sd);
+  const bool serr = vh::threw([&] {
+    VoxelsOnCartesianGrid<float> image = as_image(seq);
+    for (size_t i = 0; i < st.size(); ++i) { shared_ptr<Proc> p = make_proc(st[i]); if (p && p->apply(image) != Succeeded::yes) throw std::runtime_error("apply"); }
+    seq = image;
+  });
   vh::Json j("CHAIN");
-  j.num("id", ++ev_id).num("shape", shape).num("via", via).raw("stages", sj + "]").arr("dlo", v3(d.lo)).arr("dn", v3(d.n)).arr("d", d.v).num("sd", sd).boolean("err", err);
-  if (!err) { long long rs = 0; j.arr("o", from_array<3>(*res, d.lo, d.n, so, &rs)).num("res", rs); }
+  j.num("id", ++ev_id).num("shape", shape).num("via", via).raw("stages", sj + "]").arr("dlo", v3(d.lo)).arr("dn", v3(d.n)).arr("d", d.v).num("sd", sd).boolean("err", err || serr);
+  if (!err && !serr) { long long rs = 0; j.arr("o", from_array<3>(*res, d.lo, d.n, so, &rs)).arr("seq", from_array<3>(seq, d.lo, d.n, so, &rs)).num("res", rs); }
   tr.emit(j);
 }
 static void one_trunc(vh::Trace& tr, int via, int rim, bool strict, const A3& d, int sd) {
